@@ -3,7 +3,7 @@ Import ListNotations.
 
 (* Acceptor for the ConcurrentStream drivers at await-resolution granularity (DESIGN §6 C13).
    The model is a step function over observed events; None = "the code did something the model does not allow". *)
-Inductive term := TForEach | TTryForEach | TCollect.
+Inductive term := TForEach | TTryForEach | TCollect | TCollectRes (* collect::<Result<Vec<_>, E>>() *).
 Record cfg := { has_map : bool; has_enum : bool; enum_first : bool (* enumerate sits before the map *);
                 c_take : option nat; c_lim : option nat; c_term : term }.
 
@@ -38,14 +38,14 @@ Definition upd_st (s: st) p sd tk tc w r o b c := {| ph := p; src_done := sd; ta
 Definition set_ph s p := upd_st s p (src_done s) (taken s) (tcount s) (works s) (residual s) (outputs s) (broke s) (calls s).
 Definition set_works s w := upd_st s (ph s) (src_done s) (taken s) (tcount s) w (residual s) (outputs s) (broke s) (calls s).
 
-Definition has_term (c: cfg) := match c_term c with TCollect => false | _ => true end.
+Definition has_term (c: cfg) := match c_term c with TCollect | TCollectRes => false | _ => true end.
 Definition first_state (c: cfg) : wst := WQueued.
 (* in-flight = pushed and not complete; this is what `count` counts for for_each / try_for_each *)
 Definition live (w: nat * wst) := match snd w with WDone => false | _ => true end.
 Definition count (s: st) := length (filter live (works s)).
 Definition limit_ok (c: cfg) (s: st) : bool :=
   match c_term c, c_lim c with
-  | TCollect, _ => true
+  | TCollect, _ | TCollectRes, _ => true
   | _, None => true
   | _, Some l => count s <? l
   end.
@@ -92,9 +92,17 @@ Definition step (c: cfg) (s: st) (e: event) : option st :=
       match ph s with PDone | PDropped => None | _ =>
       match find j (works s), stage with
       | Some WMap, 0 =>
-          if has_term c then Some (set_works s (setw j WMapped (works s)))
-          else (* collect: the mapped value is pushed to the output *)
-            Some (upd_st s (ph s) (src_done s) (taken s) (tcount s) (setw j WDone (works s)) (residual s) (outputs s ++ [j]) (broke s) (calls s))
+          if has_term c then (match err with None => Some (set_works s (setw j WMapped (works s))) | Some _ => None end)
+          else
+            match err, c_term c, residual s with
+            | None, TCollect, _ | None, TCollectRes, None =>
+                (* collect: the mapped value is pushed to the output *)
+                Some (upd_st s (ph s) (src_done s) (taken s) (tcount s) (setw j WDone (works s)) (residual s) (outputs s ++ [j]) (broke s) (calls s))
+            | Some e, TCollectRes, None =>
+                (* collect into Result: the first Err that is pulled is stored (the vector collected so far is discarded), the consumer reports Break *)
+                Some (upd_st s PFlush (src_done s) (taken s) (tcount s) (setw j WDone (works s)) (Some e) (outputs s) true (calls s))
+            | _, _, _ => None      (* nothing is pulled from the group once an error is stored *)
+            end
       | Some WTerm, 1 =>
           let s1 := set_works s (setw j WDone (works s)) in
           let s2 := match err, c_term c with
@@ -137,8 +145,11 @@ Definition step (c: cfg) (s: st) (e: event) : option st :=
             | Some WQueued | Some WMapped => Some (set_works s (remw j (works s)))
             | None => (* the item waiting in `send` when the consumer broke / the operation was dropped *)
                 Some s
-            | Some WDone => (* a collected output discarded together with the dropped operation *)
-                match c_term c, ph s with TCollect, PDropped => Some (set_works s (remw j (works s))) | _, _ => None end
+            | Some WDone => (* a collected output discarded together with the dropped operation, or when an Err replaces the collected vector *)
+                match c_term c, ph s with
+                | TCollect, PDropped | TCollectRes, PDropped | TCollectRes, PFlush => Some (set_works s (remw j (works s)))
+                | _, _ => None
+                end
             | _ => None
             end
           end
@@ -152,6 +163,16 @@ Definition step (c: cfg) (s: st) (e: event) : option st :=
           | TForEach, RUnit => if (length alive =? 0) then Some (set_ph s PDone) else None
           | TTryForEach, ROkUnit => match residual s with None => if (length alive =? 0) then Some (set_ph s PDone) else None | Some _ => None end
           | TTryForEach, RErrV e => match residual s with Some e' => if e =? e' then Some (set_ph s PDone) else None | None => None end
+          | TCollectRes, RErrV e => match residual s with Some e' => if e =? e' then Some (set_ph s PDone) else None | None => None end
+          | TCollectRes, RVec items =>
+              match residual s with
+              | Some _ => None
+              | None =>
+                let pushed := map fst (works s) in
+                if (length items =? length pushed) && forallb (fun j => existsb (fun k => k =? j) items) pushed
+                   && forallb (fun w => match snd w with WDone => true | WQueued => zero_stage c | _ => false end) (works s)
+                then Some (set_ph s PDone) else None
+              end
           | TCollect, RVec items =>
               (* every pushed item is in the output exactly once (order = completion order, not checked here) *)
               let pushed := map fst (works s) in
